@@ -441,6 +441,25 @@ def vs_region_judge(res, what, desc, result, regs_members, conc, allow_plain=Tru
     res.count("judged:vs:" + what)
     if miss:
         _viol(res, what, desc, describe(result), missing=miss)
+        return
+    if is_vs(result):
+        # the value set's own flattened interval (what an interval on the left-hand side of an operation reads when the
+        # set has one value) must contain base + offset of every member
+        try:
+            flat = result.stridedinterval()
+            mm = (1 << result.bits) - 1
+            for region, si in result.regions.items():
+                base = result._region_base_addrs.get(region)
+                bases = [0] if base is None else list(base.eval(2))
+                for v in list(si.eval(3)):
+                    for b0 in bases:
+                        res.count("judged:vs-flat-interval")
+                        if not in_abs(flat, (b0 + v) & mm):
+                            _viol(res, what + ":flat-interval-misses-member", desc, describe(result), missing=[[region, b0, v]], flat=describe(flat))
+                            return
+        except Exception as e:  # noqa: BLE001
+            res.count("flat_interval_check_raised")
+            res.setadd("flat_interval_check_raised", f"{type(e).__name__}:{str(e)[:80]}")
 
 
 def vs_shard(spec, res, rng):
@@ -469,7 +488,23 @@ def vs_shard(spec, res, rng):
         gb = pick_members([tb], rng, wide)
         desc = [{r: list(t) for r, t in regs.items()}, list(tb)]
         res.case(["vs", desc], any(t[1] != 0 for t in regs.values()), sample={"valueset": desc[0], "other": desc[1]})
-        op = rng.choice(["add", "radd", "sub", "and", "mod", "subvs", "union", "widen", "intersection", "eq", "eqsi", "query", "extract", "concat", "lshr"])
+        op = rng.choice(["add", "radd", "sub", "and", "mod", "subvs", "union", "widen", "intersection", "eq", "eqsi", "query", "extract", "concat", "lshr", "emptyunion"])
+        if op == "emptyunion":
+            # a value set that has become empty (no regions left) joined with plain values
+            from claripy.backends.backend_vsa import ValueSet
+
+            E = ValueSet(bits=w) if rng.random() < 0.5 else A.intersection(mk_vs({r: (w, 0, (t[3] + 1) & m, (t[3] + 1) & m, False, False) for r, t in regs.items() if G.count(t) == 1} or {"nowhere": tb}, w))
+            if is_vs(E) and not E.regions:
+                res.count("empty_valuesets_made")
+                for nm in ("union", "widen"):
+                    ok, r = apply(res, "vs-empty-" + nm, lambda X, Y: getattr(X, nm)(Y), E, V.mk(tb))
+                    if ok and r is not None:
+                        res.count("judged:vs")
+                        res.count("judged:vs:empty-" + nm)
+                        missing = [v for v in gb if not (in_abs(r, v) if not is_vs(r) else any(in_abs(si, v) for si in r.regions.values()))]
+                        if missing:
+                            _viol(res, "vs-empty-" + nm, [{}, list(tb)], describe(r), missing=missing[:5])
+            continue
         if op in ("add", "radd", "sub", "and", "mod"):
             fn = {"add": lambda X, Y: X + Y, "radd": lambda X, Y: Y + X, "sub": lambda X, Y: X - Y, "and": lambda X, Y: X & Y, "mod": lambda X, Y: X % Y}[op]
             sem = {"add": "add", "radd": "add", "sub": "sub", "and": "and", "mod": "urem"}[op]
